@@ -502,11 +502,7 @@ TREE_KINDS = [K_string(True), K_string(False), K_int(True), K_int(False), {"k": 
 
 
 def rand_schema(rng, depth, under_seq=False):
-    """JoinedString is not generated below a sequence: Sequence.set swallows the TypeError that
-    JoinedString.set raises on a non-iterable, leaving orphaned senders (outside the model)."""
     r = rng.random()
-    if under_seq and r >= 0.85:
-        r = rng.random() * 0.85
     if depth <= 0 or r < 0.3:
         return {"s": "scalar", "kind": rng.choice(TREE_KINDS)}
     if r < 0.5:
@@ -603,7 +599,18 @@ class C04(Property):
         "a None value has text '' by documentation, so 'same .value after re-setting .u' is claimed for values other than None",
         "Enum/Constrained valid_values contain None/str/int/bool/date/time natives (Python == on them)",
     ]
-    rule = "see generate()"
+    rule = ("70% scalar cases: one of 47 kind configurations (String strip on/off; Integer/Long signed/unsigned, custom %04i/%02i widths; "
+            "Float/Decimal signed/unsigned; Boolean default and 6 custom true/false/synonym tables incl. incoherent ones; Date/Time/DateTime "
+            "strip on/off; Enum/Constrained over String/Integer/Boolean/Date/Time/DateTime/Float/Decimal children, nested Enum, never/always/"
+            "membership predicates) x an input drawn 60% from a kind-appropriate mostly-valid pool (padded, transliterated to random Unicode Nd "
+            "decades, '+'/underscore forms, mutated date/time texts) and 40% from the menagerie (None, ~130 texts incl. empty/whitespace/"
+            "exponent/NaN/inf/underscore/full-width/4300- and 4301-digit strings, out-of-range dates, ints up to 10**5000, bools, 17 floats, 15 "
+            "Decimals incl. sNaN and 1E+5000-class values, 12 native date/time/datetime values, objects with only str()/bool()); 30% of scalar "
+            "cases first set() another value on the same element. 30% container cases: random schema of depth <= 3 over List/Array, Dict "
+            "(subset/duck policy), DateYYYYMMDD, JoinedString (4 separators, prune on/off) and 8 scalar kinds, type-directed mostly-valid "
+            "input plus 15% hostile shapes (non-iterables, strings, 2-character strings as pairs, pair lists with duplicate and unknown keys), "
+            "30% with a preliminary set(). Every case: set(), observe return/value/u/signal log, and on success re-set the resulting .u on a "
+            "fresh element. non-trivial = completed set() of a non-None input (scalar) / at least one child signal (container)")
     quick_n = 40000
     thorough_n = 200000
 
@@ -647,8 +654,16 @@ class C04(Property):
             # DateYYYYMMDD.set(None): AttributeError swallowed, False, members untouched
             tree_case({"s": "date"}, leaf(None), leaf(datetime.date(2020, 1, 2))),
             tree_case({"s": "date"}, leaf("garbage")),
-            # JoinedString.set(None) raises TypeError (not a scalar type of the first clause; noted)
-            tree_case({"s": "joined", "sep": ",", "prune": True, "member": K_string(True)}, leaf(None)),
+            # fixed 09fc190 (property C04): JoinedString.set(None) -> True, no members; a non-iterable -> False, one
+            # signal, no members; both raised TypeError before (also through Dict.set({'j': None}))
+            tree_case({"s": "joined", "sep": ",", "prune": True, "member": K_string(True)}, leaf(None), leaf("a,b")),
+            tree_case({"s": "joined", "sep": ",", "prune": True, "member": K_string(True)}, leaf(7), leaf("a,b")),
+            tree_case({"s": "joined", "sep": ",", "prune": False, "member": K_int(True)}, leaf(S.Other("thing", True))),
+            tree_case({"s": "dict", "policy": "subset", "fields": [["j", {"s": "joined", "sep": ",", "prune": True, "member": K_string(True)}],
+                                                                  ["a", str_f]]},
+                      {"i": "dict", "v": [[S.py_to_nat("j"), leaf(None)], [S.py_to_nat("a"), leaf("x")]]}),
+            tree_case({"s": "seq", "as": "list", "member": {"s": "joined", "sep": ",", "prune": True, "member": K_string(True)}},
+                      {"i": "list", "v": [leaf("a,b"), leaf(None), leaf(5)]}),
             tree_case({"s": "joined", "sep": ",", "prune": True, "member": K_int(True)}, leaf("1,,x, 2")),
             tree_case({"s": "seq", "as": "list", "member": {"s": "seq", "as": "array", "member": int_f}},
                       {"i": "list", "v": [{"i": "list", "v": [leaf("1"), leaf("x")]}, leaf("45"), leaf(7)]}),
@@ -791,9 +806,8 @@ class C04(Property):
         sch = case["schema"]
         el, flag, exc, events = run_tree(case)
         if exc:
-            # containers may refuse input by design (KeyError from the Dict policy, TypeError from
-            # JoinedString on a non-iterable); anything else is a scalar's set() raising
-            if exc not in ("KeyError", "TypeError"):
+            # a Dict may refuse keys by design (KeyError from its policy); anything else is a set() raising
+            if exc != "KeyError":
                 fails.append({"clause": "set-raises", "expected": None, "observed": exc})
             return fails
         paths = {}
